@@ -2,15 +2,37 @@
 from .core import ob
 
 # ----------------------------------------------------------------------------- dynarray.c
-DA = dict(unit="dynarray_u.c", file="hdf/src/dynarray.c", cex_unwind=22, trusted=["HEclear/HEpush (error stack)"])
+DA = dict(unit="dynarray_u.c", file="hdf/src/dynarray.c", cex_unwind=22, timeout=300, trusted=["HEclear/HEpush (error stack)"])
 ob("da_get", "C12", entry="h_da_get", enforce="DAget_elem", **DA)
 ob("da_set_inplace", "C12", entry="h_da_set", enforce="DAset_elem", defines=["DA_PATH=0"], **DA)
 ob("da_set_first", "C12", entry="h_da_set", enforce="DAset_elem", defines=["DA_PATH=1"], **DA)
-ob("da_set_grow", "C12", entry="h_da_set", enforce="DAset_elem", defines=["DA_PATH=2"], loops=True, nloops=1, loopcls="P", **DA)
-ob("da_set_grow_b", "C12", entry="h_da_set", enforce="DAset_elem", defines=["DA_PATH=2", "DA_INCR=8", "DA_MAXELEM=63", "DA_MAXN=64"], loops=True, nloops=1, loopcls="P",
+ob("da_set_grow", "C12", entry="h_da_set", enforce="DAset_elem", defines=["DA_PATH=2"], tier="thorough",
+   **dict(DA, timeout=1500))
+ob("da_set_grow_b", "C12", entry="h_da_set", enforce="DAset_elem", defines=["DA_PATH=2", "DA_INCR=8", "DA_MAXELEM=63", "DA_MAXN=64"],
    mode="bounded", bound="incr_mult 8, table <= 64 slots", **DA)
 ob("da_set_null", "C12", entry="h_da_set", enforce="DAset_elem", defines=["DA_NULLCASE"], **DA)
 ob("da_del", "C12", entry="h_da_del", enforce="DAdel_elem", **DA)
 ob("da_del_null", "C12", entry="h_da_del", enforce="DAdel_elem", defines=["DA_NULLCASE"], **DA)
 ob("da_size", "C12", entry="h_da_size", enforce="DAsize_array", **DA)
 ob("da_create", "C12", entry="h_da_create", enforce="DAcreate_array", **DA)
+
+# ----------------------------------------------------------------------------- hfiledd.c, in-memory directory
+HD = dict(unit="hfiledd_dir_u.c", file="hdf/src/hfiledd.c", objbits=10, timeout=600,
+          trusted=["HEclear/HEpush (error stack)", "HAatom_object (file id -> file record or NULL)",
+                   "tbbtdfind/tbbtdins (tag tree = finite map with one modelled key, A-TBBT)"])
+ob("htagnewref", ["C12", "C20"], entry="h_tagnewref", enforce="Htagnewref", defines=["H4V_OB_TAGNEWREF"],
+   loops=True, nloops=1, loopcls="A", cex_unwind=66, **HD)
+ob("hticount_dd_even", "C12", entry="h_count_dd", enforce="HTIcount_dd",
+   defines=["H4V_OB_COUNT", "H4V_MAXNDDS=4", "H4V_NDDS_PARITY=0"], mode="bounded",
+   bound="<= 2 DD blocks, ndds in {2,4}", unwind=7, cex_unwind=7, **HD)
+ob("hticount_dd_odd", "C12", entry="h_count_dd", enforce="HTIcount_dd",
+   defines=["H4V_OB_COUNT", "H4V_MAXNDDS=5", "H4V_NDDS_PARITY=1"], mode="bounded",
+   bound="<= 2 DD blocks, ndds in {1,3,5}", unwind=7, cex_unwind=7, **HD)
+ob("htifind_dd_fwd", "C12", entry="h_find_dd", enforce="HTIfind_dd", defines=["H4V_OB_FIND", "H4V_DIRECTION=1"],
+   mode="bounded", bound="<= 2 DD blocks, ndds <= 3, DF_FORWARD", unwind=6, cex_unwind=6, **HD)
+ob("htifind_dd_bwd", "C12", entry="h_find_dd", enforce="HTIfind_dd", defines=["H4V_OB_FIND", "H4V_DIRECTION=2"],
+   mode="bounded", bound="<= 2 DD blocks, ndds <= 3, DF_BACKWARD", unwind=6, cex_unwind=6, **HD)
+ob("htifind_dd_abs", "C12", entry="h_find_dd_abs", enforce="HTIfind_dd", defines=["H4V_OB_FIND_ABS"],
+   mode="bounded", bound="<= 2 DD blocks, ndds <= 3 (abstraction used by hnewref)", unwind=6, cex_unwind=6, **HD)
+ob("hnewref", ["C12", "C20"], entry="h_newref", enforce="Hnewref", replace=["HTIfind_dd"], defines=["H4V_OB_NEWREF"],
+   loops=True, nloops=1, loopcls="P", cex_unwind=4, **HD)
